@@ -434,7 +434,9 @@ func expandGlob(root, pattern string) ([]string, error) {
 	var matches []string
 	ignoreHiddenGlobFn := func(path string, d fs.DirEntry) error {
 		if strings.HasPrefix(path, ".") {
-			return filepath.SkipDir
+			// Hidden (or the root itself), ignore it but carry on: returning SkipDir here
+			// would also drop every entry listed after it in the same directory
+			return nil
 		}
 
 		abs, err := filepath.Abs(filepath.Join(root, path))
